@@ -19,7 +19,8 @@ RULE = ("positive: payload length {0,1,4095,4096,4097,12289, 4 MiB+1} x padding 
         "values, flags {0,1,255}, empty / long names and values; the command-line tool in-process and as a subprocess. "
         "negative: every single-bit flip of the key (256); every byte of the attribute records (type, flag, name, value), of the "
         "ciphertext (payloads 1 and 4097), of the tag and of the caller AAD x XOR delta {0x01,0x80,0xFF} (thorough: all 255 on the "
-        "small payload). key store: mode NONE texts over id / data1 / data2 lengths, styles, escapes; derivation repeated twice. "
+        "small payload); tags cut to n = 0..15 bytes through the footer's length field with the rest of the tag altered; the "
+        "command-line tool onto an existing longer / shorter / equal output file. key store: mode NONE texts over id / data1 / data2 lengths, styles, escapes; derivation repeated twice. "
         "non-trivial = every tamper case, every non-canonical attribute order, every extra attribute")
 ASSUMPTIONS = [
     "envelope layout as in mc/builders/envelope.py: its serializer reproduces the header block of the repository's local.tgz.ve "
@@ -45,7 +46,7 @@ EXTRA_VALUES = {
 def shards(tier):
     out = [{"kind": "positive", "slice": [i, 8]} for i in range(8)]
     out += [{"kind": "extras", "slice": [i, 4]} for i in range(4)]
-    out += [{"kind": "cli"}, {"kind": "keystore"}, {"kind": "key-bits"}, {"kind": "sequences"}, {"kind": "fill"}]
+    out += [{"kind": "cli"}, {"kind": "keystore"}, {"kind": "key-bits"}, {"kind": "sequences"}, {"kind": "fill"}, {"kind": "short-tag"}]
     deltas = [1, 0x80, 0xFF]
     for i in range(16):
         out.append({"kind": "tamper", "payload": 1, "deltas": deltas if tier == "quick" else list(range(1, 256)), "slice": [i, 16]})
@@ -79,6 +80,10 @@ def run_shard(shard, ctx):
         for ln, pad in ((0, 0), (1, 4095), (4097, 1), (12289, 0)):
             run_case({"kind": "cli", "len": ln, "pad": pad, "how": "inprocess"}, ctx)
         run_case({"kind": "cli", "len": 5000, "pad": 7, "how": "subprocess"}, ctx)
+        # the output path already exists (longer, shorter, same length as the payload): afterwards it holds exactly the payload
+        for ln, pre in ((39, 9000), (4097, 12), (0, 700), (100, 100), (12289, 12290)):
+            run_case({"kind": "cli", "len": ln, "pad": 3, "how": "inprocess", "existing": pre}, ctx)
+        run_case({"kind": "cli", "len": 39, "pad": 0, "how": "subprocess", "existing": 9000}, ctx)
     elif kind == "keystore":
         for l1, l2, style in itertools.product((1, 16, 33), (1, 16, 40), (0, 1, 2, 3)):
             if (l1 + l2 + style) % 3 == 0 or (l1, l2) == (16, 16):
@@ -88,6 +93,13 @@ def run_shard(shard, ctx):
             run_case({"kind": "keystore", "l1": 16, "l2": 16, "style": 0, "order": order}, ctx)
     elif kind == "key-bits":
         run_case({"kind": "key-bits"}, ctx)
+    elif kind == "short-tag":
+        # the footer declares a tag of n < 16 bytes and the stored tag differs from the true one beyond its first n bytes:
+        # whichever length a reader uses, the tag it is given is not the tag of this envelope
+        for n in range(16):
+            for how in ("xor-all", "xor-one", "zero"):
+                for ln in (1, 4097):
+                    run_case({"kind": "short-tag", "n": n, "how": how, "len": ln}, ctx)
     elif kind == "sequences":
         for seq in itertools.product("GAKN", repeat=3):
             run_case({"kind": "sequence", "seq": "".join(seq)}, ctx)
@@ -224,6 +236,33 @@ def run_case(case, ctx):
             return _case_cli(case, ctx)
         if kind == "keystore":
             return _case_keystore(case, ctx)
+        if kind == "short-tag":
+            import struct
+
+            payload = B.det("payload", case["len"])
+            img, regions = B.build(payload, KEY, IV, padding=11)
+            t = bytearray(img)
+            t0, t1 = regions["tag"]
+            n = case["n"]
+            for p in range(t0 + n, t1):
+                if case["how"] == "xor-all":
+                    t[p] ^= 0xFF
+                elif case["how"] == "zero":
+                    t[p] = 0 if t[p] else 1
+                elif p == t0 + n:
+                    t[p] ^= 0x01
+            struct.pack_into("<I", t, len(t) - 8, n)
+            ctx.nontrivial += 1
+            ctx.transitions += 1
+            ctx.states += 1
+            try:
+                got = _decrypt(bytes(t), None)
+            except Exception:
+                ctx.outcome("refused-tag")
+                return
+            ctx.violation(case, {"subject": "envelope.decrypt", "kind": "tamper-accepted", "region": "tag-truncated"},
+                          {"declared_tag_length": n, "returned": len(got), "equal_to_payload": got == payload})
+            return
         if kind == "key-bits":
             payload = B.det("payload", 100)
             img, _ = B.build(payload, KEY, IV, padding=5)
@@ -299,6 +338,9 @@ def _case_cli(case, ctx):
             f.write(img)
         with open(ks, "w") as f:
             f.write(B.keystore_text(kid, data1, data2))
+        if case.get("existing") is not None:
+            with open(out, "wb") as f:
+                f.write(B.det("stale", case["existing"]))
         before = sorted(os.listdir(d))
         ctx.transitions += 1
         ctx.states += 1
@@ -323,7 +365,7 @@ def _case_cli(case, ctx):
             rc = p.returncode
         after = sorted(os.listdir(d))
         got = open(out, "rb").read() if os.path.exists(out) else None
-        if rc not in (0, None) or got != payload or after != sorted(before + ["out.bin"]):
+        if rc not in (0, None) or got != payload or after != sorted(set(before) | {"out.bin"}):
             ctx.violation(case, {"subject": "envelope.cli", "kind": "wrong-output"},
                           {"rc": rc, "len_got": None if got is None else len(got), "len_expected": len(payload), "files": after})
             return
